@@ -27,7 +27,8 @@ pub enum Mutn {
     /// deliver the unchanged bytes to node w
     Redirect(usize),
     /// deliver the unchanged bytes from another source address (0: third node's, 1: a stranger's,
-    /// 2: the genuine IP with another port, 3: the IPv4-mapped / unmapped spelling of the genuine address)
+    /// 2: the genuine IP with another port, 3: the IPv4-mapped / unmapped spelling of the genuine
+    /// address, 4: its IPv4-compatible spelling ::a.b.c.d)
     ForeignSrc(u8),
     /// unmasked domain: append `n` bytes to the auth-data and fix the auth-data size, re-mask
     AuthTail(usize),
@@ -149,6 +150,10 @@ impl Driver for Tamper {
                         0 => w.nodes[w.nodes.len() - 1].addr,
                         1 => stranger,
                         2 => std::net::SocketAddr::new(src.ip(), src.port() + 1),
+                        4 => match src {
+                            std::net::SocketAddr::V4(a) => std::net::SocketAddr::new(a.ip().to_ipv6_compatible().into(), a.port()),
+                            other => other,
+                        },
                         _ => match src {
                             std::net::SocketAddr::V4(a) => std::net::SocketAddr::new(a.ip().to_ipv6_mapped().into(), a.port()),
                             std::net::SocketAddr::V6(a) => std::net::SocketAddr::new(a.ip().to_ipv4_mapped().map(std::net::IpAddr::V4).unwrap_or_else(|| {
@@ -390,6 +395,7 @@ fn mutations(len: usize, hl: usize, log_len: usize, thorough: bool) -> Vec<Mutn>
     m.push(Mutn::ForeignSrc(1));
     m.push(Mutn::ForeignSrc(2));
     m.push(Mutn::ForeignSrc(3));
+    m.push(Mutn::ForeignSrc(4));
     m.push(Mutn::DegenerateKey(0));
     m.push(Mutn::DegenerateKey(1));
     m
